@@ -10,6 +10,9 @@ K: the executable Lean model (Model/QueryEq.lean, Model/SmartsParse.lean) agains
   sm    chython.smarts(text): bracket atoms (exhaustive short strings + grammar + corruptions), bond-token strings
         (exhaustive), cis/trans chains, maps / masks / CX radicals; outcome = query graph | IncorrectSmarts | other
   m1/m2 smarts(text).get_mapping(mol) for 1- and 2-atom patterns (the public observation point; composition of all parts)
+  mn    smarts(text).get_mapping(mol) for whole patterns (branches, ring closures, query bonds on the closures) on cage / polycyclic
+        targets and on ordinary molecules: reference path vs the Lean model (property C07's matcher model run over this property's
+        comparison models; theorem pattern_match_is_documented), public default path (accelerated matcher) vs the reference path
 Search: a property-level oracle written from the documentation (never consulting the Lean model): own attribute
 computation per atom (degree, heteroatoms, hybridisation per docstring, ring membership / ring sizes by cycle search) and the
 documented meaning of each primitive; plus "smarts() raises something that is not IncorrectSmarts".
@@ -27,12 +30,15 @@ LEVEL_TEXT = ('The comparison methods, the label computation, the setters and th
               'character no documented construct uses, and to raise nothing but IncorrectSmarts; table facts (any-metal, not_dict, '
               'charge_dict, setter domains) are proved over tables regenerated from the source on every run. The models are tied to '
               'the code by differential execution on every primitive, primitive pair, API argument form x environment and on '
-              'exhaustive short strings. Proof is the right level because the quantifier of the property (all primitives x all '
+              'exhaustive short strings. Whole patterns (any size, ring closures, several components): get_mapping is proved to return '
+              'exactly the embeddings by the documented meaning of every atom and bond (C07 exactness theorem instantiated with '
+              'eq_is_spec / bond_eq_is_spec) and executed against both matcher paths on cage targets. Proof is the right level because the quantifier of the property (all primitives x all '
               'environments, all strings of the documented subset) is closed by the theorems, not sampled.')
 LEVEL_NOTE = ('Lean kernel; hand-written models validated by correspondence (not a proof about the Python text); gen_query translator; '
-              'ring perception (sssr) is an input of the label model (C06); stereo matching in get_mapping (C12/C07) and the compiled '
-              'matcher (C09) are outside; SMARTS strings are ASCII without inner whitespace; branches / ring closures / organic-subset '
-              'atoms in SMARTS text are validated relationally against the SMILES reader, not modelled.')
+              'ring perception (sssr) and connected_components are inputs of the label / matcher model (C06, C07); the search itself is '
+              'property C07\'s model and exactness theorem (imported); stereo matching in get_mapping (C12/C07) is outside; the compiled '
+              'matcher (C09) is outside the model but its results are compared with the reference path on every pattern inside its '
+              'documented domain; SMARTS strings are ASCII without inner whitespace.')
 TECHNIQUE = 'Lean 4 theorems over an executable model of query __eq__/calc_labels/SMARTS reader + regenerated tables + differential execution'
 HAS_DRIVER = True
 EXTRA_MODULES = []
@@ -43,7 +49,11 @@ RULE = ('queries: every documented primitive with every admissible value, every 
         'heteroatoms) tuples of corpus / handmade / decorated-graph atoms plus a synthetic attribute grid; bonds: all 31 order '
         'sets x ring mark x all (order, ring) bonds; strings: all bracket contents up to a bounded length over the documented '
         'alphabet, grammar-generated documented atoms, single-edit corruptions, all bond-token strings up to length 4 between '
-        'two atoms, cis/trans chains. A case is one (query, environment) / (string) / (molecule, pattern) evaluation; non-trivial '
+        'two atoms, cis/trans chains; whole patterns: ring / closure patterns (plain and bracket atoms, bond lists, negations and ring marks on '
+        'the closure bond, branches, spiro / fused closures) x cage targets (quadricyclane, basketane, prismanes, propellanes, random '
+        'chord-rich polycycles with O / N / double bonds, renumbered copies) and patterns cut from cages and from ordinary molecules in '
+        'random depth-first order with mostly-true primitives (induced and with one cycle bond dropped), searched in their source and '
+        'elsewhere. A case is one (query, environment) / (string) / (molecule, pattern) evaluation; non-trivial '
         'when the query constrains something or the string is not empty; distinct by canonical wire form.')
 TRUSTED = ['gen_query translator (imports chython from /repo, AST of tokenize.py, probes the live setters)',
            'Spec/QuerySemantics.lean (written by hand from the docstrings of query.py, element.py, smarts.py)',
@@ -1700,6 +1710,18 @@ def embed_cases(ctx):
                 ctx.notes.append(f'cut_pattern_text raised {type(e).__name__}: {e}')
                 continue
             tname, tm = (name, m) if k % 4 else rng.choice(cages)
+            out.append((t, tname, tm))
+    # ordinary molecules (corpus, handmade, decorated graphs: aromatic bonds, charges, heteroatoms, multiple bonds, several
+    # components): patterns cut from them, searched in their source and in another molecule
+    pool = [(n, m) for n, m in molecules(ctx) if 4 <= len(m) <= 40 and not any(b.order == 8 for _, _, b in m.bonds())]
+    for name, m in rng.sample(pool, min(len(pool), 90 if ctx.quick else 900)):
+        for k in range(2):
+            try:
+                t = cut_pattern_text(rng, m, rng.randint(3, min(9, len(m))), drop=(k == 1 and rng.random() < 0.5))
+            except Exception as e:
+                ctx.notes.append(f'cut_pattern_text raised {type(e).__name__}: {e}')
+                continue
+            tname, tm = (name, m) if k == 0 else rng.choice(pool)
             out.append((t, tname, tm))
     _state['embed_cases'] = out
     return out
